@@ -5,7 +5,7 @@ The scratch copy lives outside /repo and /verif and is removed afterwards (its w
 dir under /verif/.work is keyed by the scratch path and reused)."""
 import os, shutil, subprocess, sys
 V = os.path.dirname(os.path.dirname(os.path.abspath(__file__)))
-SCR = '/tmp/vscratch/repo'
+SCR = '/tmp/vscratch/' + os.environ.get('VSCRATCH', 'repo')
 
 
 def make_scratch():
@@ -13,6 +13,8 @@ def make_scratch():
         shutil.rmtree(SCR)
     os.makedirs(os.path.dirname(SCR), exist_ok=True)
     subprocess.check_call(['rsync', '-a', '--exclude', 'target', '--exclude', '.git', '/repo/', SCR + '/'])
+    # fresh mtimes: cargo decides freshness of path dependencies by mtime, a re-used scratch path must not inherit stale artefacts
+    subprocess.check_call('find %s -type f -exec touch {} +' % SCR, shell=True)
 
 
 def main():
